@@ -494,7 +494,7 @@ func c17(c *core.Ctx) {
 	})
 	c.MarkExhaustive("grammar product")
 	// (2) mutations: invariants and round trip only
-	c.Section("mutations", c.N(20000, 600000), func(i int64, r *gen.Rand) {
+	c.Section("mutations", c.N(20000, 5000000), func(i int64, r *gen.Rand) {
 		s := c16Random(r, 1)
 		c.Eval(1)
 		u, err := stun.ParseURI(s)
